@@ -7,6 +7,7 @@ import (
 	"fmt"
 	"os"
 	"path/filepath"
+	"sort"
 	"strings"
 	"time"
 
@@ -237,7 +238,7 @@ func metaFilename(filename string) string {
 
 func (fs *filestore) Walk(ctx context.Context, bucket string, cb func(ctx context.Context, filename string, fInfo os.FileInfo) error) error {
 	root := filepath.Join(fs.gcsDir, bucket)
-	return filepath.Walk(root, func(path string, fInfo os.FileInfo, err error) error {
+	return walkInNameOrder(root, func(path string, fInfo os.FileInfo, err error) error {
 		if strings.HasSuffix(path, metaExtention) {
 			// Ignore metadata files
 			return nil
@@ -257,4 +258,59 @@ func (fs *filestore) Walk(ctx context.Context, bucket string, cb func(ctx contex
 		}
 		return nil
 	})
+}
+
+// walkInNameOrder is filepath.Walk, except that the entries of a directory are visited in the order of the
+// object names they stand for: a sub-directory "d" sorts as "d/". filepath.Walk orders a directory by
+// plain entry name, which visits "a/b" before "a.txt" although "a.txt" < "a/b"; listing relies on files
+// being reported in ascending order of their full name.
+func walkInNameOrder(root string, fn filepath.WalkFunc) error {
+	info, err := os.Lstat(root)
+	if err != nil {
+		err = fn(root, nil, err)
+	} else {
+		err = walkInNameOrderRec(root, info, fn)
+	}
+	if err == filepath.SkipDir || err == filepath.SkipAll {
+		return nil
+	}
+	return err
+}
+
+func walkInNameOrderRec(path string, info os.FileInfo, fn filepath.WalkFunc) error {
+	if !info.IsDir() {
+		return fn(path, info, nil)
+	}
+
+	entries, err := os.ReadDir(path)
+	err1 := fn(path, info, err)
+	// If err != nil, the directory could not be read; if err1 != nil (SkipDir included) it must not be entered.
+	if err != nil || err1 != nil {
+		return err1
+	}
+
+	nameKey := func(e os.DirEntry) string {
+		if e.IsDir() {
+			return e.Name() + "/"
+		}
+		return e.Name()
+	}
+	sort.Slice(entries, func(i, j int) bool { return nameKey(entries[i]) < nameKey(entries[j]) })
+
+	for _, e := range entries {
+		filename := filepath.Join(path, e.Name())
+		fileInfo, err := e.Info()
+		if err != nil {
+			if err := fn(filename, fileInfo, err); err != nil && err != filepath.SkipDir {
+				return err
+			}
+			continue
+		}
+		if err := walkInNameOrderRec(filename, fileInfo, fn); err != nil {
+			if !fileInfo.IsDir() || err != filepath.SkipDir {
+				return err
+			}
+		}
+	}
+	return nil
 }
